@@ -89,6 +89,15 @@ func (e *Engine) load(pkgPaths []string) error {
 				continue
 			}
 			idx[fn.RelString(fn.Pkg.Pkg)] = fn
+			// function literals: addressable as Parent$N
+			var addAnon func(f *ssa.Function)
+			addAnon = func(f *ssa.Function) {
+				for _, a := range f.AnonFuncs {
+					idx[a.RelString(fn.Pkg.Pkg)] = a
+					addAnon(a)
+				}
+			}
+			addAnon(fn)
 		}
 	}
 	for _, p := range prog.AllPackages() {
